@@ -4,7 +4,7 @@ from __future__ import annotations
 import math
 
 from .. import facsim as fs
-from ..facsim import (FacSim, History, gdt_of_tpv, is_position_report, its_ms_of_unix_ms, parse_iso_ms, exc_key, VEHICLE_ROLES)
+from ..facsim import FacSim, History, gdt_of_tpv, its_ms_of_unix_ms, parse_iso_ms, exc_key, VEHICLE_ROLES
 from ..result import finish
 
 ID = "C11"
@@ -23,7 +23,8 @@ COMPONENTS = {"real": ["CooperativeAwarenessBasicService", "CAMTransmissionManag
                        "VBSClusteringManager (containers)", "DecentralizedEnvironmentalNotificationService", "DENMTransmissionManagement",
                        "EmergencyVehicleApproachingService", "DENRequest", "CAMReceptionManagement", "VAMReceptionManagement",
                        "GenerationDeltaTime", "CAMCoder", "VAMCoder", "DENMCoder"],
-              "stub": ["BTP router (recording stub, both hosts)", "GNSS (plan ops)", "virtual clock (per-host offset)", "SimTimer/SimThread", "PRNG"]}
+              "real-in-10%-of-runs": ["geonet.Router + btp.Router below the services and at a second receiving station (SimLinkLayer ether)"],
+              "stub": ["BTP router (recording stub / recording proxy in front of the real router)", "GNSS (plan ops)", "virtual clock (per-host offset)", "SimTimer/SimThread", "PRNG"]}
 ASSUMPTIONS = ["a value within one unit of the element's resolution of the exact scaled measurement is accepted (floor / ceil / round)",
                "bucket edges (altitude confidence, outOfRange thresholds) accept both neighbours",
                "elements without a sensor source (speedConfidence, acceleration, curvature, yaw rate ...) are not judged",
@@ -37,7 +38,7 @@ EXPECTED_PROBES = ["cam", "vam", "denm", "denm:eva", "denm:rhs", "denm:crw", "rx
                    "gdt-wrap-between-tx-and-rx", "edge:lat=+-90", "edge:lon=+-180", "edge:alt>=8000", "edge:alt<=-1000", "edge:speed>=163.82",
                    "edge:track=360.0", "edge:epx>=40.94", "edge:epd>12.5", "edge:epd<0.1", "edge:epv>200", "edge:epv-bucket-edge",
                    "edge:alt-6130-8000", "cam:lf", "cam:special", "cam:two-wheeler", "vam:lf", "vam:cluster-op", "vbs:idle", "element-checked",
-                   "station-type-nondefault", "role-nondefault"] + ["fields:" + c for c in fs.FIELD_CLASSES]
+                   "station-type-nondefault", "role-nondefault", "rx-through-real-stack"] + ["fields:" + c for c in fs.FIELD_CLASSES]
 
 fs.warm(["cam", "vam", "denm"])
 
@@ -262,7 +263,7 @@ def judge(sim: FacSim, h: History) -> list:
                 continue
             typ = {"vru.location": "VAM", "ca.location": "CAM", "eva.trigger": "DENM", "den.request": "DENM", "den.crw": "DENM",
                    "denreq.build": "DENM"}.get(w, "DENM" if w.startswith("task:thread") else ("CAM" if w.startswith("task:timer") else w))
-            key = f"{typ}/{_exc_label(sim, e, typ)}"
+            key = f"{typ}/{fs.exc_label(sim, e, typ)}"
             if w.startswith("cluster.") or w in ("vru.start", "ca.start", "ca.stop"):
                 key = f"{w}/{exc_key(e['exc'])}"
             trace.append(("exc", key))
@@ -272,7 +273,7 @@ def judge(sim: FacSim, h: History) -> list:
         elif e["k"] == "logexc" and e["logger"] == "ca_basic_service":
             if isinstance(e["exc"], fs._Injected):
                 continue
-            key = f"CAM/{_exc_label(sim, e, 'CAM')}"
+            key = f"CAM/{fs.exc_label(sim, e, 'CAM')}"
             trace.append(("logexc", key))
             if key not in seen_exc:
                 seen_exc.add(key)
@@ -302,7 +303,7 @@ def judge(sim: FacSim, h: History) -> list:
         sim.probe(typ.lower())
         rep = m.get("trigger") if typ == "VAM" else m.get("latest")
         if m["msg"] is None:
-            culprit = _culprit(rep["tpv"]) if (rep is not None and typ != "DENM") else "?"
+            culprit = fs.culprit(rep["tpv"]) if (rep is not None and typ != "DENM") else "?"
             trace.append((typ, "undecodable", culprit))
             sim.violate(ID, "undecodable", f"{typ}/{culprit}", f"{typ} payload ({len(m['e']['data'])} B) handed to BTP at {rel(m['t'])} does not decode: "
                         f"{m['err']!r}" + (f"; report #{rep['i']}: {_brief(rep['tpv'])}" if rep is not None and typ != "DENM" else ""), m["t"])
@@ -323,48 +324,6 @@ def _brief(tpv: dict) -> str:
     return ", ".join(f"{k}={tpv[k]}" for k in ("lat", "lon", "altHAE", "speed", "track", "epx", "epy", "epv", "epd") if k in tpv)
 
 
-def _culprit(tpv: dict) -> str:
-    """Which report property makes the naive scaling leave the element's range (coarse, for keys)."""
-    if "epd" in tpv and tpv["epd"] < 0.1:
-        return "epd<0.1"                  # int(epd*10) = 0 lies below HeadingConfidence / Wgs84AngleConfidence (1..127)
-    if max(tpv.get("epx", 0), tpv.get("epy", 0)) * 100 >= 4096 and "epx" in tpv and "epy" in tpv:
-        return "epx/epy>40.95"
-    return "?"
-
-
-_ROLE_NAMES = set(VEHICLE_ROLES) | {"agriculture", "uvar", "rfu1", "rfu2"}
-
-
-def _exc_label(sim, e, typ) -> str:
-    """Finding-key part for an exception of the code under test: type (+ ASN.1 path / missing key) + root-cause class."""
-    ex = e["exc"]
-    if isinstance(ex, KeyError) and ex.args and ex.args[0] in _ROLE_NAMES:
-        return "KeyError:vehicleRole-name"
-    label = exc_key(ex)
-    if label in ("KeyError:lat", "KeyError:lon"):
-        label = "KeyError:lat/lon"
-    cul = _culprit_of_entry(sim, e)
-    if label == "Error" and cul != "?" and typ in ("CAM", "VAM"):
-        label += "/" + cul              # asn1tools' bare Error('Odd-length string') = a value below its element's lower bound
-    return label
-
-
-def _culprit_of_entry(sim, e) -> str:
-    cl = e.get("cluster")
-    if cl and not isinstance(e["exc"], KeyError):
-        op = cl.get("op") or {}
-        if op.get("clusterJoinInfo", {}).get("joinTime", 1) < 1:
-            return "clusterJoinInfo.joinTime=0"
-        if op.get("clusterBreakupInfo", {}).get("breakupTime", 1) < 1:
-            return "clusterBreakupInfo.breakupTime=0"
-        if cl.get("info"):
-            return "vruClusterInformationContainer"
-    for back in reversed(sim.log[:e.get("pos", len(sim.log))]):
-        if back["k"] == "tpv":
-            return _culprit(back["tpv"])
-    return "?"
-
-
 def _culprit_text(sim, e) -> str:
     for back in reversed(sim.log[:e.get("pos", len(sim.log))]):
         if back["k"] == "tpv":
@@ -376,9 +335,9 @@ def _stall_cause(sim, t1, t2, who) -> str:
     for e in sim.log:
         if t1 <= e["t"] <= t2:
             if e["k"] == "logexc" and who == e["logger"] and not isinstance(e["exc"], fs._Injected):
-                return "raised:" + _exc_label(sim, e, "CAM")
+                return "raised:" + fs.exc_label(sim, e, "CAM")
             if e["k"] == "exc" and e["where"] == who and not isinstance(e["exc"], fs._Injected):
-                return "raised:" + _exc_label(sim, e, "VAM")
+                return "raised:" + fs.exc_label(sim, e, "VAM")
     return "silent"
 
 
@@ -386,6 +345,15 @@ def _check(sim, typ, path, v, exp: Exp, m, rep, rel, suffix="") -> str:
     sim.probe("element-checked")
     if exp.ok(v):
         return ""
+    if m.get("garbage") and path != "heading.confidence":
+        # a value below its element's lower bound (confidence 0) corrupts the whole bit string: one root cause, one finding
+        sim.probe("collateral-of-underflow")
+        if not m.get("garbage_reported"):
+            m["garbage_reported"] = True
+            sim.violate(ID, "wrapped-value", f"{typ}/heading.confidence", f"{typ} at {rel(m['t'])}: heading confidence computed as 0 (below 1..127) "
+                        f"corrupts the encoding: {path} = {v!r}, expected one of {sorted(exp.accept, key=str)[:4]}"
+                        + (f"; report #{rep['i']}: {_brief(rep['tpv'])}" if rep is not None else ""), m["t"])
+        return "~" + path.split(".")[-1]
     if not exp.wrapped() and m.get("overflow"):
         # an element whose scaled value does not fit its bit field spills into its neighbours: report the root cause only
         sim.probe("collateral-of-overflow")
@@ -417,6 +385,9 @@ def _check_ellipse(sim, typ, pce, tpv, m, rep, rel) -> str:
             sim.probe("semi-major-smaller-than-semi-minor:" + typ)
         return ""
     wrapped = max(raw) > 4095
+    if m.get("garbage"):
+        sim.probe("collateral-of-underflow")
+        return "~ellipse"
     if not wrapped and m.get("overflow"):
         sim.probe("collateral-of-overflow")
         return "~ellipse"
@@ -433,6 +404,8 @@ def _judge_common(sim, typ, m, rep, rel, gdt, basic, head_v, head_c, speed_v) ->
     tpv = rep["tpv"]
     rp = basic["referencePosition"]
     el = exp_ellipse(tpv)
+    ehc = exp_heading_conf(tpv)
+    m["garbage"] = ehc.raw is not None and ehc.raw < ehc.lo
     m["overflow"] = any(x.wrapped() for x in (exp_heading(tpv), exp_heading_conf(tpv), exp_speed(tpv), exp_alt(tpv), exp_lat(tpv), exp_lon(tpv))) \
         or (el is not None and max(el[2]) > 4095)
     g = gdt_of_tpv(tpv)
@@ -578,7 +551,9 @@ def _judge_denm(sim, h, m, rel):
             sim.probe("element-checked")
             if ex.ok(v):
                 continue
-            if ok:
+            src_field = {"latitude": "lat", "longitude": "lon", "altitude.altitudeValue": "altHAE"}[name]
+            if ok or (src_field not in newest and any(src_field in s_["tpv"] for s_ in evas[1:])):
+                # the application keeps one shared event position: an element missing from this report keeps an earlier trigger's value
                 sim.probe("denm-field-from-earlier-trigger")
                 continue
             sfx = "/6130..8000m" if name.startswith("alt") and "altHAE" in newest and 6130 < newest["altHAE"] < 8000 else ""
